@@ -25,7 +25,10 @@ pub fn stub_run_tokens<'a, D: Device, FMT: Formatter>(
     _context: &mut Context,
     _tokens: &mut Peekable<Tokenizer>,
     _response: &mut FMT,
-) -> Result<()> {
+) -> Result<()>
+where
+    'a: 'a,
+{
     unsafe {
         if RT_RESULT == 0 {
             Ok(())
@@ -91,7 +94,10 @@ pub fn stub_exec<'a, D: Device, FMT: Formatter>(
     _context: &mut Context,
     tokens: &mut Peekable<Tokenizer>,
     response: &mut FMT,
-) -> Result<()> {
+) -> Result<()>
+where
+    'a: 'a,
+{
     unsafe {
         let i = EXEC_CALLS;
         EXEC_CALLS += 1;
